@@ -14,6 +14,7 @@ import (
 	"os"
 	"sync"
 	"time"
+	"verif/monlog"
 
 	"github.com/scionproto/scion/pkg/addr"
 	"github.com/scionproto/scion/pkg/experimental/hiddenpath"
@@ -408,7 +409,7 @@ func runHPHistory(r *mon.Run, s hpSetup, pool []*variant, ops []hpOp, mode dbMod
 	}
 	// No deadline: with a cancellable context the sqlite driver starts a
 	// goroutine per row; hangs are the driver script's watchdog's business.
-	ctx := context.Background()
+	ctx := monlog.Alternate() // log level is a configuration dimension
 	ver := &scriptedVerifier{bad: map[string]bool{}}
 	for _, v := range pool {
 		if v.BadSig {
